@@ -389,6 +389,22 @@ func (rt *runtimeS) quiesce() {
 	e.K = fmt.Sprintf("%d", rt.base)
 	e.X = strings.Join(tops, " ")
 	e.Code = npend
+	// envelopes written and deliverable (automatic delivery, or released) that the other side has not read:
+	// at a quiescent point that means its read loop is not reading (h = 1000 * towards-server + towards-client)
+	c2s, s2c := 0, 0
+	for _, i := range sortedKeys(rt.clis) {
+		if l := rt.clis[i].link; l != nil {
+			c2s += l.c2s.deliverable()
+			s2c += l.s2c.deliverable()
+		}
+	}
+	if c2s > 999 {
+		c2s = 999
+	}
+	if s2c > 999 {
+		s2c = 999
+	}
+	e.H = 1000*c2s + s2c
 	tr.emit(e)
 }
 
